@@ -48,7 +48,7 @@ def main():
             continue
         flags = ['-std=c++14', '-O0', '-g', '--coverage', '-pthread', '-I' + REPO + '/include', '-I' + REPO + '/src',
                  '-I' + VERIF + '/harness', '-DDMLC_LOG_STACK_TRACE=0', '-DDMLC_USE_S3=0', '-DDMLC_USE_HDFS=0',
-                 '-DDMLC_USE_AZURE=0', '-DDMLC_CORE_VERIF=1'] + list(h.get('flags', []))
+                 '-DDMLC_USE_AZURE=0', '-DDMLC_CORE_VERIF=1', '-DVH_COVERAGE=1'] + list(h.get('flags', []))
         bdir = os.path.join(work, 'b%d' % hi)
         os.makedirs(bdir)
         objs = []
